@@ -1107,3 +1107,304 @@ Proof.
   - apply FloatRateL.pl_share_delta_check. vm_compute. reflexivity.
   - apply FloatRateL.results_fin_check. vm_compute. reflexivity.
 Qed.
+
+
+(** ** The whole game in IEEE 754 binary64: Thurstone-Mosteller (TMF and TMP) when every
+    compared pair of teams is TIED.
+
+    For Thurstone-Mosteller the contribution of a pair (i, q) to delta is
+    fl(fl(fl(g * s2c) / c) * W) with W = [w] of Gauss.v for a win/loss and W = [wt] for a tie
+    ([tm_term] chooses by the ranks).  [wt] ends with the clamp [min(max(value, 0), 1)], so in
+    doubles it is a NaN or a finite double in [0,1] whatever libm computes
+    ([C17_wt_range_binary64]); a finite accumulated delta rules the NaN out.  Hence NO premise
+    about exp64 / erfc64 / icdf64 is needed below.  (For a win/loss pair the factor [w] is >= 0
+    only by the Mills-ratio inequality, which needs the accuracy of libm: not covered; see
+    [C17_w_nonneg_binary64_partial].)
+
+    [C06_tm_tie_delta_nonneg_binary64]: the delta accumulated by [tm_term two_c] over opponents
+    [opp] that are all tied with [ti] is >= 0 as a double.  [two_c] selects the scale: [c_iq]
+    (false, full pairing) or [2 * c_iq] (true, partial pairing).  Premises: sigma_i^2 >= 0, per
+    opponent the scale finite and gamma >= 0, the accumulated delta finite.  Derived: the scale
+    is > 0 (finite, >= 0, and a finite quotient has a non-zero divisor), every prefix of the sum
+    finite, [wt] finite, s2c >= 0.
+    [C06_compute_tm_all_tied_sigma_le_binary64]: [compute k P trs], k = TMF or TMP, on team
+    ratings that all carry one rank: every posterior sigma is a finite double with
+    0 <= sigma' <= the sigma given.  [C06_rate_tm_all_tied_sigma_le_binary64]: the same through
+    [rate_core] (tau inflation, sorting, unsorting, [limit_sigma] clamp), when the team ratings
+    [rate_sorted] builds all carry one rank (e.g. all rank values passed are equal).
+    Hypotheses as for Bradley-Terry above, minus everything about exp: >= 2 teams, pow64 >= 0 on
+    finite arguments, kappa finite in [0,1], sigmas >= 0, gamma >= 0, the scale finite per
+    compared pair, share * delta finite per player, result sigmas finite. *)
+From OSV.Lemmas Require FloatGaussL.
+
+Theorem C06_tm_tie_delta_nonneg_binary64 :
+  forall (exp64 erfc64 pow64 icdf64 : binary64 -> binary64)
+         (two_c : bool) (P : params binary64) (trs : list (trating binary64)) (ti : trating binary64)
+         (opp : list (trating binary64)),
+  0 <= B2R 53 1024 (t_ss ti) ->
+  (forall tq : trating binary64, In tq opp ->
+     t_rank tq = t_rank ti
+     /\ is_finite 53 1024
+          (if two_c
+           then @fmul binary64 (B64Num exp64 erfc64 pow64 icdf64) (@ftwo binary64 (B64Num exp64 erfc64 pow64 icdf64))
+                  (@c_iq binary64 (B64Num exp64 erfc64 pow64 icdf64) P ti tq)
+           else @c_iq binary64 (B64Num exp64 erfc64 pow64 icdf64) P ti tq) = true
+     /\ 0 <= B2R 53 1024
+               (@gamma_of binary64 P
+                  (if two_c
+                   then @fmul binary64 (B64Num exp64 erfc64 pow64 icdf64) (@ftwo binary64 (B64Num exp64 erfc64 pow64 icdf64))
+                          (@c_iq binary64 (B64Num exp64 erfc64 pow64 icdf64) P ti tq)
+                   else @c_iq binary64 (B64Num exp64 erfc64 pow64 icdf64) P ti tq) trs ti)) ->
+  is_finite 53 1024
+    (snd (fold_left (@tm_term binary64 (B64Num exp64 erfc64 pow64 icdf64) two_c P trs ti) opp
+            (@fzero binary64 (B64Num exp64 erfc64 pow64 icdf64),
+             @fzero binary64 (B64Num exp64 erfc64 pow64 icdf64)))) = true ->
+  0 <= B2R 53 1024
+         (snd (fold_left (@tm_term binary64 (B64Num exp64 erfc64 pow64 icdf64) two_c P trs ti) opp
+                 (@fzero binary64 (B64Num exp64 erfc64 pow64 icdf64),
+                  @fzero binary64 (B64Num exp64 erfc64 pow64 icdf64)))).
+Proof. exact FloatGaussL.tm_tie_delta_nonneg_b64. Qed.
+Print Assumptions C06_tm_tie_delta_nonneg_binary64.
+
+Theorem C06_compute_tm_all_tied_sigma_le_binary64 :
+  forall (exp64 erfc64 pow64 icdf64 : binary64 -> binary64)
+         (k : kind) (P : params binary64) (trs : list (trating binary64)),
+  k = TMF \/ k = TMP ->
+  (forall x : binary64, is_finite 53 1024 x = true -> 0 <= B2R 53 1024 (pow64 x)) ->
+  is_finite 53 1024 (p_kappa P) = true ->
+  0 <= B2R 53 1024 (p_kappa P) <= 1 ->
+  (2 <= length trs)%nat ->
+  (forall ti tq : trating binary64, In ti trs -> In tq trs -> t_rank tq = t_rank ti) ->
+  (forall ti : trating binary64, In ti trs -> 0 <= B2R 53 1024 (t_ss ti)) ->
+  (forall ti : trating binary64, In ti trs -> forall p : rating binary64, In p (t_team ti) ->
+     0 <= B2R 53 1024 (r_sigma p)) ->
+  forall (opps : list (trating binary64 * list (trating binary64))) (two_c : bool),
+  opps = match k with TMF => @opponents_full binary64 trs | _ => @opponents_part binary64 trs end ->
+  two_c = match k with TMF => false | _ => true end ->
+  (forall (ti : trating binary64) (opp : list (trating binary64)), In (ti, opp) opps ->
+   forall tq : trating binary64, In tq opp ->
+     is_finite 53 1024
+       (if two_c
+        then @fmul binary64 (B64Num exp64 erfc64 pow64 icdf64) (@ftwo binary64 (B64Num exp64 erfc64 pow64 icdf64))
+               (@c_iq binary64 (B64Num exp64 erfc64 pow64 icdf64) P ti tq)
+        else @c_iq binary64 (B64Num exp64 erfc64 pow64 icdf64) P ti tq) = true
+     /\ 0 <= B2R 53 1024
+               (@gamma_of binary64 P
+                  (if two_c
+                   then @fmul binary64 (B64Num exp64 erfc64 pow64 icdf64) (@ftwo binary64 (B64Num exp64 erfc64 pow64 icdf64))
+                          (@c_iq binary64 (B64Num exp64 erfc64 pow64 icdf64) P ti tq)
+                   else @c_iq binary64 (B64Num exp64 erfc64 pow64 icdf64) P ti tq) trs ti)) ->
+  (forall (ti : trating binary64) (opp : list (trating binary64)), In (ti, opp) opps ->
+   forall p : rating binary64, In p (t_team ti) ->
+     is_finite 53 1024
+       (@fmul binary64 (B64Num exp64 erfc64 pow64 icdf64)
+          (@fdiv binary64 (B64Num exp64 erfc64 pow64 icdf64)
+             (@fpow2 binary64 (B64Num exp64 erfc64 pow64 icdf64) (r_sigma p)) (t_ss ti))
+          (snd (fold_left (@tm_term binary64 (B64Num exp64 erfc64 pow64 icdf64) two_c P trs ti) opp
+                  (@fzero binary64 (B64Num exp64 erfc64 pow64 icdf64),
+                   @fzero binary64 (B64Num exp64 erfc64 pow64 icdf64))))) = true) ->
+  (forall res : list (rating binary64),
+     In res (@compute binary64 (B64Num exp64 erfc64 pow64 icdf64) k P trs) ->
+     forall r : rating binary64, In r res -> is_finite 53 1024 (r_sigma r) = true) ->
+  Forall2 (Forall2 (fun p r : rating binary64 =>
+      is_finite 53 1024 (r_sigma p) = true
+      /\ is_finite 53 1024 (r_sigma r) = true
+      /\ 0 <= B2R 53 1024 (r_sigma r) <= B2R 53 1024 (r_sigma p)))
+    (map t_team trs) (@compute binary64 (B64Num exp64 erfc64 pow64 icdf64) k P trs).
+Proof. exact FloatGaussL.compute_tm_all_tied_sigma_le_b64. Qed.
+Print Assumptions C06_compute_tm_all_tied_sigma_le_binary64.
+
+Theorem C06_rate_tm_all_tied_sigma_le_binary64 :
+  forall (exp64 erfc64 pow64 icdf64 : binary64 -> binary64)
+         (k : kind) (P : params binary64) (tau : binary64) (limit : bool)
+         (teams : list (list (rating binary64))) (keys : option (list key)),
+  k = TMF \/ k = TMP ->
+  match keys with Some ks => length ks = length teams | None => True end ->
+  (2 <= length teams)%nat ->
+  (forall x : binary64, is_finite 53 1024 x = true -> 0 <= B2R 53 1024 (pow64 x)) ->
+  is_finite 53 1024 (p_kappa P) = true ->
+  0 <= B2R 53 1024 (p_kappa P) <= 1 ->
+  (forall t : list (rating binary64), In t teams -> forall p : rating binary64, In p t ->
+     0 <= B2R 53 1024 (r_sigma p)) ->
+  forall trs : list (trating binary64),
+  trs = match keys with
+        | None =>
+            @team_ratings binary64 (B64Num exp64 erfc64 pow64 icdf64)
+              (map (map (@inflate binary64 (B64Num exp64 erfc64 pow64 icdf64) tau)) teams)
+              (seq 0 (length (map (map (@inflate binary64 (B64Num exp64 erfc64 pow64 icdf64) tau)) teams)))
+        | Some ks =>
+            @team_ratings binary64 (B64Num exp64 erfc64 pow64 icdf64)
+              (fst (unwind key_leb ks (map (map (@inflate binary64 (B64Num exp64 erfc64 pow64 icdf64) tau)) teams)))
+              (calc_rankings key_ltb (isort key_leb ks))
+        end ->
+  (forall ti tq : trating binary64, In ti trs -> In tq trs -> t_rank tq = t_rank ti) ->
+  forall (opps : list (trating binary64 * list (trating binary64))) (two_c : bool),
+  opps = match k with TMF => @opponents_full binary64 trs | _ => @opponents_part binary64 trs end ->
+  two_c = match k with TMF => false | _ => true end ->
+  (forall (ti : trating binary64) (opp : list (trating binary64)), In (ti, opp) opps ->
+   forall tq : trating binary64, In tq opp ->
+     is_finite 53 1024
+       (if two_c
+        then @fmul binary64 (B64Num exp64 erfc64 pow64 icdf64) (@ftwo binary64 (B64Num exp64 erfc64 pow64 icdf64))
+               (@c_iq binary64 (B64Num exp64 erfc64 pow64 icdf64) P ti tq)
+        else @c_iq binary64 (B64Num exp64 erfc64 pow64 icdf64) P ti tq) = true
+     /\ 0 <= B2R 53 1024
+               (@gamma_of binary64 P
+                  (if two_c
+                   then @fmul binary64 (B64Num exp64 erfc64 pow64 icdf64) (@ftwo binary64 (B64Num exp64 erfc64 pow64 icdf64))
+                          (@c_iq binary64 (B64Num exp64 erfc64 pow64 icdf64) P ti tq)
+                   else @c_iq binary64 (B64Num exp64 erfc64 pow64 icdf64) P ti tq) trs ti)) ->
+  (forall (ti : trating binary64) (opp : list (trating binary64)), In (ti, opp) opps ->
+   forall p : rating binary64, In p (t_team ti) ->
+     is_finite 53 1024
+       (@fmul binary64 (B64Num exp64 erfc64 pow64 icdf64)
+          (@fdiv binary64 (B64Num exp64 erfc64 pow64 icdf64)
+             (@fpow2 binary64 (B64Num exp64 erfc64 pow64 icdf64) (r_sigma p)) (t_ss ti))
+          (snd (fold_left (@tm_term binary64 (B64Num exp64 erfc64 pow64 icdf64) two_c P trs ti) opp
+                  (@fzero binary64 (B64Num exp64 erfc64 pow64 icdf64),
+                   @fzero binary64 (B64Num exp64 erfc64 pow64 icdf64))))) = true) ->
+  (forall res : list (rating binary64),
+     In res (@compute binary64 (B64Num exp64 erfc64 pow64 icdf64) k P trs) ->
+     forall r : rating binary64, In r res -> is_finite 53 1024 (r_sigma r) = true) ->
+  Forall2 (Forall2 (fun p r : rating binary64 =>
+      is_finite 53 1024 (r_sigma r) = true
+      /\ 0 <= B2R 53 1024 (r_sigma r)
+           <= B2R 53 1024 (r_sigma (@inflate binary64 (B64Num exp64 erfc64 pow64 icdf64) tau p))
+      /\ (limit = true -> B2R 53 1024 (r_sigma r) <= B2R 53 1024 (r_sigma p))))
+    teams (@rate_core binary64 (B64Num exp64 erfc64 pow64 icdf64) k P tau limit teams keys).
+Proof. exact FloatGaussL.rate_tm_all_tied_sigma_le_b64. Qed.
+Print Assumptions C06_rate_tm_all_tied_sigma_le_binary64.
+
+(** Non-vacuity.  Stand-ins for libm: [exp := |x|], [erfc := FloatGaussL.step_erfc] (2.0 / 1.0 /
+    0.0 on negative / zero / positive arguments), [x ** 2 := x * x].  beta = 25/6, kappa = 0.75,
+    default gamma.  Three teams [(25, 25/3); (30.5, 7.25)], [(27, 6); (28.25, 5)], [(55, 9)]: team
+    means 55.5, 55.25, 55, all tied.  The mean differences are below kappa, so every [wt] call
+    takes its dividing branch (the clamp is exercised, not the constant 1.0).
+    Delta of the first team against the two others, full pairing: >= 0, and > 0 by computation. *)
+Example C06_tm_tie_delta_nonneg_binary64_example :
+  let N := B64Num b64_abs FloatGaussL.step_erfc (fun x => b64_mult mode_NE x x) (fun x => x) in
+  let P := @mkParams binary64 (b64_of_bits 4616377268039232171) (b64_of_dyadic 3 (-2))
+             (@gamma_default binary64 N) in
+  let game := [[@mkRating binary64 (b64_of_bits 4627730092099895296) (b64_of_bits 4620880867666602667) 0%Z NmNone;
+                @mkRating binary64 (b64_of_bits 4629278204471803904) (b64_of_bits 4619848792751996928) 1%Z NmNone];
+               [@mkRating binary64 (b64_of_Z 27) (b64_of_Z 6) 2%Z NmNone;
+                @mkRating binary64 (b64_of_dyadic 113 (-2)) (b64_of_Z 5) 3%Z NmNone];
+               [@mkRating binary64 (b64_of_Z 55) (b64_of_Z 9) 4%Z NmNone]] in
+  let trs := @team_ratings binary64 N game [0; 0; 0]%nat in
+  let ti := nth 0 trs (@mkT binary64 (b64_of_Z 0) (b64_of_Z 0) [] 0) in
+  let opp := tl trs in
+  0 <= B2R 53 1024
+         (snd (fold_left (@tm_term binary64 N false P trs ti) opp (@fzero binary64 N, @fzero binary64 N)))
+  /\ b64_ltb (@fzero binary64 N)
+       (snd (fold_left (@tm_term binary64 N false P trs ti) opp (@fzero binary64 N, @fzero binary64 N))) = true
+  /\ forallb (fun tq =>
+        negb (@fltb binary64 N
+          (@fsub binary64 N
+             (@Gauss.cdf binary64 N (@fsub binary64 N (@fdiv binary64 N (p_kappa P) (@c_iq binary64 N P ti tq))
+                (@fabs binary64 N (@fdiv binary64 N (@fsub binary64 N (t_mu ti) (t_mu tq)) (@c_iq binary64 N P ti tq)))))
+             (@Gauss.cdf binary64 N (@fsub binary64 N (@fneg binary64 N (@fdiv binary64 N (p_kappa P) (@c_iq binary64 N P ti tq)))
+                (@fabs binary64 N (@fdiv binary64 N (@fsub binary64 N (t_mu ti) (t_mu tq)) (@c_iq binary64 N P ti tq))))))
+          (@feps binary64 N))) opp = true.
+Proof.
+  intros N P game trs ti opp. split; [|split; vm_compute; reflexivity].
+  apply (C06_tm_tie_delta_nonneg_binary64 b64_abs FloatGaussL.step_erfc (fun x => b64_mult mode_NE x x) (fun x => x)
+           false P trs ti opp).
+  - apply FloatOrderL.b64_sign_nonneg. vm_compute. reflexivity.
+  - intros tq [<-|[<-|[]]]; (split; [reflexivity|]); (split; [vm_compute; reflexivity|]);
+      apply FloatOrderL.b64_sign_nonneg; vm_compute; reflexivity.
+  - vm_compute. reflexivity.
+Qed.
+
+(** [compute], TMP (ladder neighbours, scale 2 * c_iq), the same three tied teams; second
+    conjunct (by computation on doubles): every posterior sigma is strictly below the sigma given *)
+Example C06_compute_tm_all_tied_sigma_le_binary64_example :
+  let N := B64Num b64_abs FloatGaussL.step_erfc (fun x => b64_mult mode_NE x x) (fun x => x) in
+  let P := @mkParams binary64 (b64_of_bits 4616377268039232171) (b64_of_dyadic 3 (-2))
+             (@gamma_default binary64 N) in
+  let game := [[@mkRating binary64 (b64_of_bits 4627730092099895296) (b64_of_bits 4620880867666602667) 0%Z NmNone;
+                @mkRating binary64 (b64_of_bits 4629278204471803904) (b64_of_bits 4619848792751996928) 1%Z NmNone];
+               [@mkRating binary64 (b64_of_Z 27) (b64_of_Z 6) 2%Z NmNone;
+                @mkRating binary64 (b64_of_dyadic 113 (-2)) (b64_of_Z 5) 3%Z NmNone];
+               [@mkRating binary64 (b64_of_Z 55) (b64_of_Z 9) 4%Z NmNone]] in
+  let trs := @team_ratings binary64 N game [0; 0; 0]%nat in
+  Forall2 (Forall2 (fun p r : rating binary64 =>
+      is_finite 53 1024 (r_sigma p) = true
+      /\ is_finite 53 1024 (r_sigma r) = true
+      /\ 0 <= B2R 53 1024 (r_sigma r) <= B2R 53 1024 (r_sigma p)))
+    (map t_team trs) (@compute binary64 N TMP P trs)
+  /\ forallb (fun tr => forallb (fun pr => b64_ltb (r_sigma (snd pr)) (r_sigma (fst pr)))
+                          (combine (fst tr) (snd tr)))
+       (combine (map t_team trs) (@compute binary64 N TMP P trs)) = true.
+Proof.
+  intros N P game trs. split; [|vm_compute; reflexivity].
+  apply (C06_compute_tm_all_tied_sigma_le_binary64 b64_abs FloatGaussL.step_erfc (fun x => b64_mult mode_NE x x) (fun x => x)
+           TMP P trs) with (opps := @opponents_part binary64 trs) (two_c := true).
+  - right. reflexivity.
+  - intros x _. apply FloatRateL.b64_square_nonneg.
+  - vm_compute. reflexivity.
+  - split; [apply FloatOrderL.b64_sign_nonneg | apply FloatOrderL.b64_leb_one_le_1]; vm_compute; reflexivity.
+  - vm_compute. repeat constructor.
+  - apply FloatGaussL.ranks_tied_check. vm_compute. reflexivity.
+  - apply (FloatRateL.b64_nonneg_check (@t_ss binary64)). vm_compute. reflexivity.
+  - apply (FloatRateL.b64_nonneg_check2 (@t_team binary64) (@r_sigma binary64)). vm_compute. reflexivity.
+  - reflexivity.
+  - reflexivity.
+  - apply (FloatGaussL.tm_pair_check b64_abs FloatGaussL.step_erfc (fun x => b64_mult mode_NE x x) (fun x => x) true).
+    vm_compute. reflexivity.
+  - apply (FloatGaussL.tm_share_delta_check b64_abs FloatGaussL.step_erfc (fun x => b64_mult mode_NE x x) (fun x => x) true).
+    vm_compute. reflexivity.
+  - apply FloatRateL.results_fin_check. vm_compute. reflexivity.
+Qed.
+
+(** [rate_core], TMF (all other teams), [limit = true], tau = 2^-7, the same teams passed with
+    equal rank values 1, 1, 1; second conjunct (by computation on doubles): every posterior sigma
+    is strictly below the prior sigma here (with tau = 2^-4 four of the five would be cut back
+    to exactly the prior sigma by the [limit_sigma] clamp) *)
+Example C06_rate_tm_all_tied_sigma_le_binary64_example :
+  let N := B64Num b64_abs FloatGaussL.step_erfc (fun x => b64_mult mode_NE x x) (fun x => x) in
+  let P := @mkParams binary64 (b64_of_bits 4616377268039232171) (b64_of_dyadic 3 (-2))
+             (@gamma_default binary64 N) in
+  let tau := b64_of_dyadic 1 (-7) in
+  let teams := [[@mkRating binary64 (b64_of_bits 4627730092099895296) (b64_of_bits 4620880867666602667) 0%Z NmNone;
+                 @mkRating binary64 (b64_of_bits 4629278204471803904) (b64_of_bits 4619848792751996928) 1%Z NmNone];
+                [@mkRating binary64 (b64_of_Z 27) (b64_of_Z 6) 2%Z NmNone;
+                 @mkRating binary64 (b64_of_dyadic 113 (-2)) (b64_of_Z 5) 3%Z NmNone];
+                [@mkRating binary64 (b64_of_Z 55) (b64_of_Z 9) 4%Z NmNone]] in
+  let keys := Some [(1, 0)%Z; (1, 0)%Z; (1, 0)%Z] in
+  Forall2 (Forall2 (fun p r : rating binary64 =>
+      is_finite 53 1024 (r_sigma r) = true
+      /\ 0 <= B2R 53 1024 (r_sigma r) <= B2R 53 1024 (r_sigma (@inflate binary64 N tau p))
+      /\ (true = true -> B2R 53 1024 (r_sigma r) <= B2R 53 1024 (r_sigma p))))
+    teams (@rate_core binary64 N TMF P tau true teams keys)
+  /\ forallb (fun tr => forallb (fun pr => b64_ltb (r_sigma (snd pr)) (r_sigma (fst pr)))
+                          (combine (fst tr) (snd tr)))
+       (combine teams (@rate_core binary64 N TMF P tau true teams keys)) = true.
+Proof.
+  intros N P tau teams keys. split; [|vm_compute; reflexivity].
+  apply (C06_rate_tm_all_tied_sigma_le_binary64 b64_abs FloatGaussL.step_erfc (fun x => b64_mult mode_NE x x) (fun x => x)
+           TMF P tau true teams keys)
+    with (trs := @team_ratings binary64 N
+                   (fst (unwind key_leb [(1, 0)%Z; (1, 0)%Z; (1, 0)%Z] (map (map (@inflate binary64 N tau)) teams)))
+                   (calc_rankings key_ltb (isort key_leb [(1, 0)%Z; (1, 0)%Z; (1, 0)%Z])))
+         (opps := @opponents_full binary64
+                    (@team_ratings binary64 N
+                       (fst (unwind key_leb [(1, 0)%Z; (1, 0)%Z; (1, 0)%Z] (map (map (@inflate binary64 N tau)) teams)))
+                       (calc_rankings key_ltb (isort key_leb [(1, 0)%Z; (1, 0)%Z; (1, 0)%Z]))))
+         (two_c := false).
+  - left. reflexivity.
+  - reflexivity.
+  - vm_compute. repeat constructor.
+  - intros x _. apply FloatRateL.b64_square_nonneg.
+  - vm_compute. reflexivity.
+  - split; [apply FloatOrderL.b64_sign_nonneg | apply FloatOrderL.b64_leb_one_le_1]; vm_compute; reflexivity.
+  - apply FloatRateL.sigmas_nonneg_check. vm_compute. reflexivity.
+  - reflexivity.
+  - apply FloatGaussL.ranks_tied_check. vm_compute. reflexivity.
+  - reflexivity.
+  - reflexivity.
+  - apply (FloatGaussL.tm_pair_check b64_abs FloatGaussL.step_erfc (fun x => b64_mult mode_NE x x) (fun x => x) false).
+    vm_compute. reflexivity.
+  - apply (FloatGaussL.tm_share_delta_check b64_abs FloatGaussL.step_erfc (fun x => b64_mult mode_NE x x) (fun x => x) false).
+    vm_compute. reflexivity.
+  - apply FloatRateL.results_fin_check. vm_compute. reflexivity.
+Qed.
